@@ -20,7 +20,7 @@ func init() {
 	register(&Property{
 		ID: "C09",
 		Meta: core.Meta{
-			Level: "other",
+			Level:       "other",
 			Explanation: "Per expansion (S2, every generated handler and client method that evaluates security): (R09.1) every call of the user handler is dominated by the success edge of every security call and by the true edge of the requirement test, and the failure edges build *ogenerrors.SecurityError (→ 401 by the Code() constant); (R09.2) bit discipline: the k-th security block sets exactly bit (k/8, k%8) of `satisfied`, distinct blocks set distinct bits, every requirement mask is a subset of the settable bits, the array is long enough, and the requirement closure has the shape OR-over-alternatives of AND-over-bytes (the only comparison is `satisfied[i] & mask != mask` on the same mask, its true edge continues the outer loop, `true` is returned after the inner loop and `false` after the outer) — for the server and the client copy; (R09.4) the credential carrier agrees: the place the generated client writes each scheme's credential (header name, query key, cookie name, Basic, Bearer prefix) is the place the generated server reads it from. S1: (R09.3) the index arithmetic in the templates (div/mod by 8) equals bitset.Set's, and scheme indexes are assigned once per scheme name; (R09.5) operation-level security replaces the global one (φ selected by `!= nil`, never a concatenation). NOT decided: requirement structures outside the fixture corpus for S2 rules; what the user's SecurityHandler does.",
 			Assumptions: []string{"S2 quantifies over the fixture corpus"},
 			TrustedBase: []string{"cmd/ogen as macro-expander (build step)"},
@@ -172,11 +172,12 @@ func checkCredentialVerbatim(c *core.Ctx, r *core.Rule, ex *core.Expansion, fx *
 }
 
 // checkSecurityGeneratorState (R09.6, S1):
-//  (a) the bit a scheme gets in a requirement mask is its position in the operation's Securities list: the index handed
-//      to bitset.Set in generateSecurities comes from the name→position map or from len(Securities)-1, never from a
-//      loop index over alternatives or schemes;
-//  (b) the OpenAPI parser keeps no per-operation state: outside Parse / the constructor its fields are only touched by
-//      keyed map inserts (reference caches, the operationId set), so nothing parsed for one operation can leak into the next.
+//
+//	(a) the bit a scheme gets in a requirement mask is its position in the operation's Securities list: the index handed
+//	    to bitset.Set in generateSecurities comes from the name→position map or from len(Securities)-1, never from a
+//	    loop index over alternatives or schemes;
+//	(b) the OpenAPI parser keeps no per-operation state: outside Parse / the constructor its fields are only touched by
+//	    keyed map inserts (reference caches, the operationId set), so nothing parsed for one operation can leak into the next.
 func checkSecurityGeneratorState(c *core.Ctx) error {
 	r := c.NewRule("R09.6", "S1", "requirement bits are scheme positions; the parser carries no per-operation state", 2)
 	prog, err := c.Program("./gen", "./openapi/parser")
@@ -1235,7 +1236,6 @@ func checkRequirementSkip(c *core.Ctx, r *core.Rule, prog *core.Prog) {
 		}
 	}
 }
-
 
 // mentionsLenOfField: the condition contains len(x.<field>).
 func mentionsLenOfField(v ssa.Value, field string, depth int) bool {
